@@ -167,7 +167,11 @@ func (c *vclock) NewTimer(d time.Duration) kclock.Timer {
 }
 
 func (c *vclock) newTimerLocked(d, period time.Duration) *vtimer {
-	tm := &vtimer{c: c, ch: make(chan time.Time, 1), dl: c.now + int64(d), period: int64(period)}
+	dl := c.now + int64(d)
+	if d > 0 && dl < c.now {
+		dl = 1<<63 - 1 // past the last instant: never fires (no wrap-around)
+	}
+	tm := &vtimer{c: c, ch: make(chan time.Time, 1), dl: dl, period: int64(period)}
 	c.last = tm
 	if d <= 0 && period == 0 {
 		tm.fire(c.now)
